@@ -10,13 +10,18 @@ from contracts.wps_c import parts_facts, SIZES, MAXL, EFFW
 
 SH = lambda R: '(0 if {R} <= p.ri2 else ({R} - p.ri2 if {R} <= p.ri3 else p.ri3 - p.ri2))'.format(R=R)   # noqa: E731
 PF = parts_facts('p')
-START = 'l1 * p.width + l2 - %s' % SH('l1')
-COMMON = PF + SIZES + ['p.window == ' + EFFW, 'off(wps) == 0', 'length(wps) >= p.length', 'off(i1) == 0', 'off(i2) == 0',
+def common(sr, sc):
+    START = '%s * p.width + %s - %s' % (sr, sc, SH(sr))
+    return _common(START, sr, sc)
+
+
+def _common(START, sr, sc):
+    return PF + SIZES + ['p.window == ' + EFFW, 'off(wps) == 0', 'length(wps) >= p.length', 'off(i1) == 0', 'off(i2) == 0',
                        'length(i1) >= l1 + l2', 'length(i2) >= l1 + l2',
-                       '0 <= rip <= l1', '0 <= cip <= l2', 'ri_width == p.width * rip', 'ri_widthp == ri_width - p.width',
+                       '0 <= rip <= %s' % sr, '0 <= cip <= %s' % sc, 'ri_width == p.width * rip', 'ri_widthp == ri_width - p.width',
                        'implies(rip >= 1, wpsi == cip - %s)' % SH('rip'),
                        'ri_width + wpsi <= ' + START,
-                       '0 <= i <= (l1 - rip) + (l2 - cip)',
+                       '0 <= i <= (%s - rip) + (%s - cip)' % (sr, sc),
                        'forall(lambda k: implies(0 <= k < i, 0 <= i1[k] < l1 and 0 <= i2[k] < l2 and i1[k] >= rip - 1 and i2[k] >= cip - 1))',
                        'forall(lambda k: implies(0 <= k < i - 1, i1[k + 1] <= i1[k] and i2[k + 1] <= i2[k]))',
                        'forall(lambda k: wps[k] == old(wps[k]))']
@@ -36,25 +41,65 @@ def gen_bp(rng, n):
                    i2={'buf': [0] * (l1 + l2), 'elem': 'long'}, l1=l1, l2=l2, settings=st)
 
 
-contract(
-    'dd_dtw.c::dtw_best_path',
-    params={'wps': 'cptr:val', 'i1': 'cptr:int', 'i2': 'cptr:int', 'l1': 'int', 'l2': 'int', 'settings': ('cstruct', 'DTWSettings')},
-    requires=SIZES + ['0 <= settings.window <= ' + MAXL, 'off(wps) == 0', 'off(i1) == 0', 'off(i2) == 0',
-                      'length(i1) >= l1 + l2', 'length(i2) >= l1 + l2',
-                      'length(wps) >= (l1 + 1) * mini(l2 + 1, (l1 - l2 if l1 > l2 else l2 - l1) + 2 * %s + 1)' % EFFW],
-    ensures=['0 <= result <= l1 + l2',
-             'forall(lambda k: implies(0 <= k < result, 0 <= i1[k] < l1 and 0 <= i2[k] < l2))',
-             'forall(lambda k: implies(0 <= k < result - 1, i1[k + 1] <= i1[k] and i2[k + 1] <= i2[k]))',
-             'forall(lambda k: wps[k] == old(wps[k]))'],
-    loops={
-        0: dict(head='while rip > p.ri3 and cip > 0', inv=COMMON + ['rip >= p.ri3'], variant='rip + cip'),
-        1: dict(head='while rip > p.ri2 and cip > 0', inv=COMMON + ['p.ri2 <= rip', 'rip <= p.ri3 or cip == 0'], variant='rip + cip'),
-        2: dict(head='while rip > 0 and cip > 0', inv=COMMON + ['rip <= p.ri2 or cip == 0'], variant='rip + cip'),
-    },
-    assigns=['i1', 'i2'],
-    returns='int',
-    replay=gen_bp,
-    theories=('bounds', 'dtw'),
-    order_axioms=True,
-    props=('C05', 'C08', 'C20'),
-)
+
+BASE_REQ = SIZES + ['0 <= settings.window <= ' + MAXL, 'off(wps) == 0', 'off(i1) == 0', 'off(i2) == 0',
+                    'length(i1) >= l1 + l2', 'length(i2) >= l1 + l2',
+                    'length(wps) >= (l1 + 1) * mini(l2 + 1, (l1 - l2 if l1 > l2 else l2 - l1) + 2 * %s + 1)' % EFFW]
+ENS = ['0 <= result <= l1 + l2',
+       'forall(lambda k: implies(0 <= k < result, 0 <= i1[k] < l1 and 0 <= i2[k] < l2))',
+       'forall(lambda k: implies(0 <= k < result - 1, i1[k + 1] <= i1[k] and i2[k + 1] <= i2[k]))',
+       'forall(lambda k: wps[k] == old(wps[k]))']
+
+
+def traceback(name, extra_params, extra_req, sr, sc, gen, arith=False):
+    C = common(sr, sc)
+    contract(
+        'dd_dtw.c::' + name,
+        params=dict([('wps', 'cptr:val'), ('i1', 'cptr:int'), ('i2', 'cptr:int'), ('l1', 'int'), ('l2', 'int')] + extra_params
+                    + [('settings', ('cstruct', 'DTWSettings'))]),
+        requires=BASE_REQ + extra_req,
+        ensures=ENS,
+        loops={
+            0: dict(head='while rip > p.ri3 and cip > 0', inv=C + ['rip >= p.ri3 or rip == %s' % sr], variant='rip + cip'),
+            1: dict(head='while rip > p.ri2 and cip > 0', inv=C + ['p.ri2 <= rip or rip == %s' % sr, 'rip <= p.ri3 or cip == 0'],
+                    variant='rip + cip'),
+            2: dict(head='while rip > 0 and cip > 0', inv=C + ['rip <= p.ri2 or cip == 0'], variant='rip + cip'),
+        },
+        assigns=['i1', 'i2'],
+        returns='int',
+        replay=gen,
+        theories=('bounds', 'dtw'),
+        order_axioms=True,
+        props=('C05', 'C08', 'C20'),
+    )
+
+
+def gen_bp_start(rng, n):
+    """start cells inside the band (the precondition of the custom-start routine)"""
+    for a in gen_bp(rng, 3 * n):
+        l1, l2, w0 = a['l1'], a['l2'], a['settings']['struct']['window']
+        w = max(l1, l2) if w0 == 0 else min(w0, max(l1, l2))
+        rs, cs = rng.randint(1, l1), rng.randint(1, l2)
+        i, j = rs - 1, cs - 1
+        if i - max(0, l1 - l2) - w < j < i + max(0, l2 - l1) + w:
+            a = dict(a)
+            st = a.pop('settings')
+            a.update(rs=rs, cs=cs, settings=st)
+            yield a
+
+
+def gen_bp_isclose(rng, n):
+    from contracts import gens
+    for a in gen_bp(rng, n):
+        a = dict(a)
+        st = a.pop('settings')
+        a.update(rtol=gens.fx(1e-5), atol=gens.fx(1e-8), settings=st)
+        yield a
+
+
+traceback('dtw_best_path', [], [], 'l1', 'l2', gen_bp)
+traceback('dtw_best_path_isclose', [('rtol', 'val'), ('atol', 'val')], [], 'l1', 'l2', gen_bp_isclose)
+traceback('dtw_best_path_customstart', [('rs', 'int'), ('cs', 'int')],
+          ['1 <= rs <= l1', '1 <= cs <= l2',
+           # the start cell lies in the band (so it is stored: dtw_wps_loc's contract)
+           'JSrow(rs - 1, l1, l2, %s) <= cs - 1 < JErow(rs - 1, l1, l2, %s)' % (EFFW, EFFW)], 'rs', 'cs', gen_bp_start)
